@@ -24,6 +24,12 @@ def fmtLoop (st : Loop Float (List Float)) : String :=
     ++ " | ".intercalate (st.log.map fun e =>
         (if e.1 then "-1" else "1") ++ " " ++ toString e.2.1 ++ " " ++ (if e.2.2.1 then "T" else "F") ++ " " ++ (if e.2.2.2 then "A" else "K"))
 
+def normF (a : List Float) : Float := Float.sqrt (dot a a)
+/-- a dot product off by a rounding-sized amount: in `f32` the difference `θ⁺ - θ⁻` of the U-turn test carries an absolute
+    error of about `ulp·|θ|`, so `(θ⁺ - θ⁻)·r` is uncertain by about `κ·|r|`; the knife-edge probes re-run the model with
+    `dot ± κ·|b|·(1 + |a|)` -/
+def dotBiased (k : Float) (a b : List Float) : Float := dot a b + k * normF b * (1 + normF a)
+
 def devOf (a b : List Float) : Float := (List.zipWith (fun a b => (a - b).abs / (1 + a.abs)) a b).foldl max 0
 
 /-- `c03 <id> <ty> <eps> ; target ; pos ; mom ; exp1 ; dirs ; sel ; acc`
@@ -39,14 +45,21 @@ def c03core (withStat : Bool) (args : List String) : String :=
       | some t, some pos, some mom, some [exp1], some dirs, some sel, some acc =>
         let run (pos mom : List Float) (eps : Float) :=
           transition (targetFn t) dot eps pos mom exp1 dirs sel acc 14
+        let kap : Float := if ty = "f32" then 5e-6 else 1e-13
+        let runB (k : Float) := transition (targetFn t) (dotBiased k) eps pos mom exp1 dirs sel acc 14
         match run pos mom eps with
         | none => id ++ " INDET"
         | some st =>
-          let e : Float := if ty = "f32" then 1e-5 else 2e-7
+          -- rounding accumulates along the trajectory: the probe perturbation grows with the number of leapfrog steps
+          let scale : Float := max 1 (Float.ofNat (2 ^ st.j) / 100)
+          let e : Float := (if ty = "f32" then 1e-5 else 2e-7) * scale
           let alt1 := run (pos.map (· * (1 + e))) (mom.map (· * (1 - e))) eps
           let alt2 := run (pos.zipIdx.map fun (x, i) => x * (1 + (if i % 2 == 0 then e else -e)) + e) (mom.zipIdx.map fun (x, i) => x * (1 + (if i % 2 == 1 then e else -e))) (eps * (1 + e))
           let tol : Float := if ty = "f32" then 3e-3 else 2e-5
-          let stable := match alt1, alt2 with
+          let biasOk := match runB kap, runB (-kap) with
+            | some a, some b => fmtLoop a == fmtLoop st && fmtLoop b == fmtLoop st
+            | _, _ => false
+          let stable := biasOk && match alt1, alt2 with
             | some a, some b => fmtLoop a == fmtLoop st && fmtLoop b == fmtLoop st
                 && devOf st.pos a.pos ≤ 0.1 * tol && devOf st.pos b.pos ≤ 0.1 * tol
                 && (st.alpha - a.alpha).abs ≤ 0.1 * tol * (1 + st.alpha.abs) && (st.alpha - b.alpha).abs ≤ 0.1 * tol * (1 + st.alpha.abs)
@@ -78,12 +91,17 @@ def c03t (args : List String) : String :=
           let tg := targetFn t pos
           (buildTree (targetFn t) dot logu (decide (v < 0)) eps joint0 j ⟨pos, mom, tg.2, tg.1⟩ sel).1
         let r := run pos mom eps
+        let kap : Float := if ty = "f32" then 5e-6 else 1e-13
+        let runB (k : Float) :=
+          let tg := targetFn t pos
+          (buildTree (targetFn t) (dotBiased k) logu (decide (v < 0)) eps joint0 j ⟨pos, mom, tg.2, tg.1⟩ sel).1
         let key (r : Tree Float (List Float)) := toString r.n ++ " " ++ (if r.s then "T" else "F") ++ " " ++ toString r.nalpha
-        let e : Float := if ty = "f32" then 1e-5 else 2e-7
+        let scale : Float := max 1 (Float.ofNat (2 ^ j) / 100)
+        let e : Float := (if ty = "f32" then 1e-5 else 2e-7) * scale
         let a := run (pos.map (· * (1 + e))) (mom.map (· * (1 - e))) eps
         let b := run (pos.zipIdx.map fun (x, i) => x * (1 + (if i % 2 == 0 then e else -e)) + e) (mom.zipIdx.map fun (x, i) => x * (1 + (if i % 2 == 1 then e else -e))) (eps * (1 + e))
         let tol : Float := if ty = "f32" then 3e-3 else 2e-5
-        let stable := key a == key r && key b == key r
+        let stable := key a == key r && key b == key r && key (runB kap) == key r && key (runB (-kap)) == key r
           && devOf r.prime.pos a.prime.pos ≤ 0.1 * tol && devOf r.prime.pos b.prime.pos ≤ 0.1 * tol
           && devOf r.minus.pos a.minus.pos ≤ 0.1 * tol && devOf r.plus.pos b.plus.pos ≤ 0.1 * tol
           && (r.alpha - a.alpha).abs ≤ 0.1 * tol * (1 + r.alpha.abs) && (r.alpha - b.alpha).abs ≤ 0.1 * tol * (1 + r.alpha.abs)
